@@ -30,6 +30,16 @@ def _src2(out, ncomp, ncells):
     return [x if x == y else exact.OFF for x, y in zip(s0, s1)]
 
 
+def _unshift(arr, K):
+    """Tags of an object made by adding K: exact 0 stays 0 (a zeroed masked position), K + tag -> tag, a bare K (the shifted
+    content of a masked position that was not zeroed) -> an unknown tag."""
+    a = np.asarray(arr, dtype=float).copy()
+    nz = a != 0
+    a[nz] -= K
+    a[nz & (a == 0)] = -7.0
+    return a
+
+
 def _build(kind, values, mask, store_native):
     import autoarray as aa
 
@@ -98,6 +108,18 @@ def records_for(inst, seed=0):
                             child_ok = False
                 rec = {"p": "C01", "api": "structure", "h": h, "w": w, "u": u, "kind": kind, "given": given,
                        "store_native": store_native}
+                # a derivation history: an object made by arithmetic from the judged one (its buffer holds K at masked
+                # positions when it is stored native) must report the same two forms, masked positions exactly zero
+                K = float(4 * n)
+                for op, f in (("add", lambda o: o + K), ("radd", lambda o: K + o)):
+                    try:
+                        dobj = f(ot)
+                        dn, ds = np.array(dobj.native.array), np.array(dobj.slim.array)
+                    except Exception:  # noqa: BLE001
+                        rec["d_native_" + op], rec["d_slim_" + op] = [exact.OFF], [exact.OFF]
+                        continue
+                    rec["d_native_" + op] = _src2(_unshift(dn, K), ncomp, n)
+                    rec["d_slim_" + op] = _src2(_unshift(ds, K), ncomp, n)
                 ok = True
                 flat_real = realn.reshape(n, ncomp) if ncomp == 2 else realn.reshape(n, 1)
                 for name, arr in rt.items():
@@ -189,6 +211,14 @@ def run(ctx):
     ctx.exhaustive = True
     rng = np.random.default_rng(ctx.seed)
     rnd = mc.random_masks(rng, ctx.bounds["random_masks"])
+    # long one-row masks: the 1D structures (Array1D / Grid1D) on lines far longer than the exhaustive bound
+    for k in range(40 if quick else 400):
+        w1 = int(rng.integers(13, 70))
+        m1 = rng.random(w1) < rng.choice([0.2, 0.5, 0.8])
+        m1[int(rng.integers(0, w1))] = True
+        if k % 3 == 0:
+            m1[int(rng.integers(0, w1))] = False
+        rnd.append((1, w1, [int(x) for x in np.flatnonzero(m1)]))
     allinst = insts + rnd
     groups = [(allinst[k : k + 50], ctx.seed) for k in range(0, len(allinst), 50)]
     recs = []
